@@ -86,8 +86,10 @@ impl CompoundVal {
 		let len = self.len();
 		match self {
 			CompoundVal::Str(s) => {
-				if let Some((i,_)) = s.grapheme_indices(true).nth(index) {
-					s.replace_range(i..=i, &value.to_string());
+				if let Some((i,gr)) = s.grapheme_indices(true).nth(index) {
+					// The whole character goes, however many bytes it has
+					let end = i + gr.len();
+					s.replace_range(i..end, &value.to_string());
 				} else {
 					let padding = index.saturating_sub(len);
 					if padding > 0 {
